@@ -6,6 +6,12 @@ BASELINE_OFF = json.load(open('/root/.vp/BASELINE.json'))['cmd']
 
 # id -> (engine, category, technique, text, note, design_ref)
 CHECKS = {
+ 'C09': ('httpmon', 'exploration',
+   'runtime monitoring of raw hostile request targets against generated trees with canary files outside the root; token lookup oracle, reference route table, marker-delimited operator notice windows; real curl --path-as-is samples; -race',
+   'Held on 6 (quick) / 60 (thorough) generated trees x 3 configurations (directory, single file, unset) x 400 / 3 000 raw targets each (plain/encoded/double-encoded dot segments, encoded slashes, backslashes, empty segments, NUL/control bytes, 8 KiB paths, absolute-form, *, authority-form, methods, ranges): no response ever carried a canary token, every 2xx body was exactly an in-tree file, range or listing, single-file and unset modes behaved as stated, /c, /i/x, /o/x and /io kept their meaning although such files exist, every file request was reported.',
+   'No symlinks inside the tree; HEAD 2xx bodies are only token-scanned; curl hops judged with the weak expectations only.',
+   'DESIGN.md C09'),
+
  'C05': ('ptymon+httpmon', 'exploration',
    'runtime monitoring of the real -race binary on a pty and of hsrv in-process over many configurations: every advertised fingerprint compared with the pin computed by an independent TLS client from the presented leaf; real curl --pinnedpubkey with the advertised and a one-bit-altered pin; bound port read from /proc',
    'Held on 16 (quick) / 200 (thorough) configurations of the real binary (9 listen-address forms x callback addresses x file serving x IPv6 one-liners x custom template x cache forms incl. restart sequences) and 80 / 750 in-process servers: every sha256// text on the terminal (start-up, file and re-printed one-liners) and in /c scripts equalled the served pin, curl accepted it and rejected the altered pin with exit 90, one-liners named the bound port unless the user gave one.',
